@@ -932,4 +932,264 @@ theorem save_layout (o : Obj) (os : OStream) (r : SaveRes) (h : save o os = .ok 
               · exact absurd hok (by simp)
               · exact ⟨_, trivial, rfl, rfl, rfl, rfl⟩
 
+/-! ### the header fields of a section that the layout is about, and `residentForSave` -/
+
+/-- the fields of a section the layout theorems talk about -/
+def hdrOf (s : SecBuf) : BitVec 64 × BitVec 64 × BitVec 32 × Nat × BitVec 64 × BitVec 64 × BitVec 64 :=
+  (s.offset, s.size, s.stype, s.index, s.addr, s.flags, s.addrAlign)
+
+theorem secLoadData_hdr (c : Cls) (tr : List Trans) (ls : LoadSt) (b : SecBuf) :
+    hdrOf (secLoadData c tr ls b).2.1 = hdrOf b := by
+  unfold secLoadData
+  simp only
+  repeat' split
+  all_goals rfl
+
+theorem secGetData_hdr (c : Cls) (tr : List Trans) (ls : LoadSt) (b : SecBuf) :
+    hdrOf (secGetData c tr ls b).2 = hdrOf b := by
+  unfold secGetData
+  split
+  · simp only
+    split
+    · exact secLoadData_hdr c tr ls b
+    · have := secLoadData_hdr c tr ls b
+      unfold hdrOf at this ⊢
+      exact this
+  · rfl
+
+theorem residentForSave_hdr (c : Cls) (tr : List Trans) (l : List SecBuf) (ls : LoadSt) (acc : List SecBuf) :
+    (residentForSave c tr l ls acc).1.map hdrOf = (acc.reverse ++ l).map hdrOf := by
+  induction l generalizing ls acc with
+  | nil => simp [residentForSave]
+  | cons b rest ih =>
+    unfold residentForSave
+    split
+    · simp only
+      rw [ih]
+      simp only [List.reverse_cons, List.append_assoc, List.singleton_append, List.map_append,
+        List.map_cons, secGetData_hdr]
+    · rw [ih]
+      simp only [List.reverse_cons, List.append_assoc, List.singleton_append]
+
+theorem hdrOf_getElem? {l l' : List SecBuf} (h : l'.map hdrOf = l.map hdrOf) (k : Nat) (s' : SecBuf)
+    (hs : l'[k]? = some s') : ∃ s, l[k]? = some s ∧ hdrOf s = hdrOf s' := by
+  have h1 : (l'.map hdrOf)[k]? = some (hdrOf s') := by rw [List.getElem?_map, hs]; rfl
+  rw [h, List.getElem?_map] at h1
+  cases hl : l[k]? with
+  | none => rw [hl] at h1; exact nomatch h1
+  | some s => rw [hl] at h1; exact ⟨s, rfl, by simpa using h1⟩
+
+theorem occ_of_hdrOf {s s' : SecBuf} (h : hdrOf s = hdrOf s') : s'.Occ ↔ s.Occ := by
+  simp only [hdrOf, Prod.mk.injEq] at h
+  unfold SecBuf.Occ; rw [h.2.2.1, h.2.1]
+
+theorem Packed.of_hdrOf {lo hi : Nat} {l l' : List SecBuf} {P : Nat → Prop}
+    (h : Packed lo hi l P) (he : l'.map hdrOf = l.map hdrOf) : Packed lo hi l' P := by
+  refine ⟨h.le, ?_, ?_, ?_⟩
+  · intro k s' hs ho
+    obtain ⟨s, hs0, hh⟩ := hdrOf_getElem? he k s' hs
+    have := h.nz k s hs0 ((occ_of_hdrOf hh).1 ho)
+    simp only [hdrOf, Prod.mk.injEq] at hh
+    rw [← hh.2.2.2.1]; exact this
+  · intro k s' hs hp ho
+    obtain ⟨s, hs0, hh⟩ := hdrOf_getElem? he k s' hs
+    have := h.inR k s hs0 hp ((occ_of_hdrOf hh).1 ho)
+    simp only [hdrOf, Prod.mk.injEq] at hh
+    unfold SecBuf.endN at *
+    rw [← hh.1, ← hh.2.1]; exact this
+  · intro k1 k2 a' b' hne h1 h2 hp1 hp2 ha hb
+    obtain ⟨a, ha0, hha⟩ := hdrOf_getElem? he k1 a' h1
+    obtain ⟨b, hb0, hhb⟩ := hdrOf_getElem? he k2 b' h2
+    have := h.disj k1 k2 a b hne ha0 hb0 hp1 hp2 ((occ_of_hdrOf hha).1 ha) ((occ_of_hdrOf hhb).1 hb)
+    simp only [hdrOf, Prod.mk.injEq] at hha hhb
+    unfold SecBuf.endN at *
+    rw [← hha.1, ← hha.2.1, ← hhb.1, ← hhb.2.1]; exact this
+
+/-! ### the composition -/
+
+/-- the layout state `layout_segments_and_their_sections` starts from -/
+def lay0Of (o : Obj) (pos0 : BitVec 64) : Layout :=
+  { secs := o.secs, pos := pos0, gen := List.replicate (o.secs.length % 65536) false }
+
+/-- No 64-bit wrap-around of the file cursor anywhere in the layout part of `save` (every cursor
+    update `p ↦ p'` has `p.toNat ≤ p'.toNat`), and every section offset fits the class's field. -/
+def layoutNW (o : Obj) (h : Bytes) : Bool :=
+  match layoutOf o h with
+  | .ok (some res) =>
+    segsNW o.cls (Hdr.e_phoff o.cls o.enc res.hdr0) (Hdr.e_phentsize o.cls o.enc res.hdr0)
+        (Hdr.e_phnum o.cls o.enc res.hdr0) res.ordered (lay0Of o res.pos0) &&
+      looseNW o.cls res.segs res.lay2.secs 0 res.lay2.pos &&
+      decide (res.pos3.toNat ≤ res.shoff.toNat)
+  | _ => true
+
+/-- the pieces of a `layoutOf` result -/
+theorem layoutOf_parts (o : Obj) (h : Bytes) (res : LayoutRes) (hl : layoutOf o h = .ok (some res)) :
+    res.hdr0 = saveHdr0 o h ∧
+    res.pos0 = save_cursor0 (Hdr.e_ehsize o.cls o.enc res.hdr0) (Hdr.e_phentsize o.cls o.enc res.hdr0)
+      (Hdr.e_phnum o.cls o.enc res.hdr0) ∧
+    o.segs.mapM (calcSegAlign o.secs) = .ok res.segs0 ∧
+    orderedSegments res.segs0 = .ok res.ordered ∧
+    res.ordered.foldlM (segsStep o.cls (Hdr.e_phoff o.cls o.enc res.hdr0) (Hdr.e_phentsize o.cls o.enc res.hdr0)
+      (Hdr.e_phnum o.cls o.enc res.hdr0)) (some (lay0Of o res.pos0, [])) = .ok (some (res.lay2, res.done)) ∧
+    res.segs = res.segs0.map (fun g => (res.done.find? (fun d => d.index == g.index)).getD g) ∧
+    (res.secs, res.pos3) = layoutLoose o.cls res.segs res.lay2.secs 0 res.lay2.pos [] ∧
+    res.shoff = lst_cursor res.pos3 (lst_error res.pos3) := by
+  unfold layoutOf at hl
+  simp only [bind, Except.bind] at hl
+  cases hm : o.segs.mapM (calcSegAlign o.secs) with
+  | error e => rw [hm] at hl; simp at hl
+  | ok segs =>
+    rw [hm] at hl
+    simp only at hl
+    cases ho : orderedSegments segs with
+    | error e => rw [ho] at hl; simp at hl
+    | ok ordered =>
+      rw [ho] at hl
+      simp only at hl
+      split at hl
+      · simp at hl
+      · rename_i v hfold
+        cases v with
+        | none => simp [pure, Except.pure] at hl
+        | some ld =>
+          obtain ⟨lay, done⟩ := ld
+          simp only [pure, Except.pure, Except.ok.injEq, Option.some.injEq] at hl
+          subst hl
+          exact ⟨rfl, rfl, rfl, ho, hfold, rfl, rfl, rfl⟩
+
+theorem lst_cursor_facts (pos : BitVec 64) (h : pos.toNat ≤ (lst_cursor pos (lst_error pos)).toNat) :
+    (lst_cursor pos (lst_error pos)).toNat % 16 = 0 ∧ pos.toNat < (lst_cursor pos (lst_error pos)).toNat := by
+  have e16 : (BitVec.signExtend 64 16#32) = 16#64 := by decide
+  unfold lst_cursor lst_error at h ⊢
+  rw [e16] at h ⊢
+  have hm : (pos % 16#64).toNat = pos.toNat % 16 := by simp [BitVec.toNat_umod]
+  have hs : (16#64 - pos % 16#64).toNat = 16 - pos.toNat % 16 := by
+    simp only [BitVec.toNat_sub, hm, BitVec.toNat_ofNat, Nat.reducePow, Nat.reduceMod]; omega
+  rw [bv_add_toNat_of_le _ _ h, hs]
+  omega
+
+/-- **The monotone cursor argument, composed**: after the three passes every section that was
+    placed (generated by a segment, or without a segment) and occupies file space lies between the
+    end of the program header table and the section header table, and any two of them are disjoint. -/
+theorem layout_packed (o : Obj) (h : Bytes) (res : LayoutRes) (hl : layoutOf o h = .ok (some res))
+    (hnw : layoutNW o h = true) (hn : o.secs.length < 65536)
+    (h0 : ∀ (i : Nat) (s : SecBuf), o.secs[i]? = some s → s.Occ → s.index ≠ 0) :
+    Packed res.pos0.toNat res.pos3.toNat res.secs
+      (fun k => res.lay2.Gen k ∨ withoutSegment res.segs k = true) ∧
+    LayStep (lay0Of o res.pos0) res.lay2 ∧
+    res.pos3.toNat < res.shoff.toNat ∧ res.shoff.toNat % 16 = 0 := by
+  unfold layoutNW at hnw
+  rw [hl] at hnw
+  simp only [Bool.and_eq_true, decide_eq_true_eq] at hnw
+  obtain ⟨⟨hnw2, hnw3⟩, hnw4⟩ := hnw
+  obtain ⟨-, -, -, -, hfold, -, hloose, hsh⟩ := layoutOf_parts o h res hl
+  -- pass 2
+  have hinv0 : LayInv res.pos0.toNat (lay0Of o res.pos0) := by
+    refine ⟨by simp [lay0Of, Nat.mod_eq_of_lt hn], Nat.le_refl _, h0, ?_, ?_⟩
+    · intro i s _ hg; exfalso
+      simp only [Layout.Gen, lay0Of, List.getElem?_replicate] at hg
+      split at hg <;> simp at hg
+    · intro i j a b _ _ _ hg; exfalso
+      simp only [Layout.Gen, lay0Of, List.getElem?_replicate] at hg
+      split at hg <;> simp at hg
+  obtain ⟨hinv2, hstep2⟩ := segsFold_inv _ _ _ _ _ _ _ _ _ _ hinv0 hnw2 hfold
+  -- pass 3
+  rw [layoutLoose_eq_spec] at hloose
+  simp only [List.reverse_nil, List.nil_append, Prod.mk.injEq] at hloose
+  obtain ⟨hsecs, hpos3⟩ := hloose
+  obtain ⟨flen, fmono, fun_, fpl, ford⟩ := looseSpec_facts o.cls res.segs res.lay2.secs 0 res.lay2.pos hnw3
+  simp only [Nat.zero_add] at fun_ fpl ford
+  simp only [← hsecs, ← hpos3] at flen fmono fun_ fpl ford
+  have hP2 := hinv2.packed
+  -- every final section comes from a section of pass 2 at the same position
+  have hsrc : ∀ (k : Nat) (s' : SecBuf), res.secs[k]? = some s' → ∃ s, res.lay2.secs[k]? = some s := by
+    intro k s' hs'
+    have : k < res.lay2.secs.length := by
+      rw [← flen]
+      rcases Nat.lt_or_ge k res.secs.length with h' | h'
+      · exact h'
+      · rw [List.getElem?_eq_none h'] at hs'; exact nomatch hs'
+    exact ⟨_, List.getElem?_eq_getElem this⟩
+  -- description of a final section
+  have hdesc : ∀ (k : Nat) (s' : SecBuf), res.secs[k]? = some s' →
+      ∃ s, res.lay2.secs[k]? = some s ∧ SecBuf.Moved s s' ∧
+        (withoutSegment res.segs k = false → s' = s) ∧
+        (withoutSegment res.segs k = true → s.index ≠ 0 →
+          res.lay2.pos.toNat ≤ s'.offset.toNat ∧ (lsws_occupies s.stype = true → s'.endN ≤ res.pos3.toNat)) := by
+    intro k s' hs'
+    obtain ⟨s, hs⟩ := hsrc k s' hs'
+    cases hw : withoutSegment res.segs k with
+    | false =>
+      have := fun_ k s hs hw
+      rw [hs'] at this; simp only [Option.some.injEq] at this
+      exact ⟨s, hs, by rw [this]; exact SecBuf.Moved.refl s, fun _ => this, fun h => Bool.noConfusion h⟩
+    | true =>
+      obtain ⟨t, ht, hm, -, -, hr⟩ := fpl k s hs hw
+      rw [hs'] at ht; simp only [Option.some.injEq] at ht; subst ht
+      exact ⟨s, hs, hm, fun h => Bool.noConfusion h, fun _ hi => ⟨(hr hi).1, (hr hi).2.2.2⟩⟩
+  refine ⟨⟨by have := hP2.le; omega, ?_, ?_, ?_⟩, hstep2, ?_, ?_⟩
+  · intro k s' hs' ho
+    obtain ⟨s, hs, hm, -, -⟩ := hdesc k s' hs'
+    rw [hm.index]; exact hP2.nz k s hs ((hm.occ).1 ho)
+  · intro k s' hs' hp ho
+    obtain ⟨s, hs, hm, hsame, hpl⟩ := hdesc k s' hs'
+    have hos : s.Occ := (hm.occ).1 ho
+    cases hw : withoutSegment res.segs k with
+    | true =>
+      have := hpl hw (hP2.nz k s hs hos)
+      have h2 := this.2 (lsws_occupies_of_occ hos)
+      have := hP2.le
+      omega
+    | false =>
+      have hg : res.lay2.Gen k := by
+        rcases hp with hp | hp
+        · exact hp
+        · rw [hw] at hp; exact nomatch hp
+      have := hsame hw; subst this
+      have := hP2.inR k s' hs hg ho
+      omega
+  · intro k1 k2 a' b' hne h1 h2 hp1 hp2 ha hb
+    obtain ⟨a, has, hma, hsa, hpa⟩ := hdesc k1 a' h1
+    obtain ⟨b, hbs, hmb, hsb, hpb⟩ := hdesc k2 b' h2
+    have hoa : a.Occ := (hma.occ).1 ha
+    have hob : b.Occ := (hmb.occ).1 hb
+    have hia := hP2.nz k1 a has hoa
+    have hib := hP2.nz k2 b hbs hob
+    cases hw1 : withoutSegment res.segs k1 with
+    | true =>
+      cases hw2 : withoutSegment res.segs k2 with
+      | true =>
+        rcases Nat.lt_or_gt_of_ne hne with hlt | hlt
+        · left; exact (ford k1 k2 a b a' b' hlt has hbs hw1 hw2 h1 h2 hia hib).2 (lsws_occupies_of_occ hoa)
+        · right; exact (ford k2 k1 b a b' a' hlt hbs has hw2 hw1 h2 h1 hib hia).2 (lsws_occupies_of_occ hob)
+      | false =>
+        have hg : res.lay2.Gen k2 := by
+          rcases hp2 with hp | hp
+          · exact hp
+          · rw [hw2] at hp; exact nomatch hp
+        have := hsb hw2; subst this
+        have := hP2.inR k2 b' hbs hg hb
+        have := (hpa hw1 hia).1
+        right; omega
+    | false =>
+      have hg1 : res.lay2.Gen k1 := by
+        rcases hp1 with hp | hp
+        · exact hp
+        · rw [hw1] at hp; exact nomatch hp
+      have := hsa hw1; subst this
+      cases hw2 : withoutSegment res.segs k2 with
+      | true =>
+        have := hP2.inR k1 a' has hg1 ha
+        have := (hpb hw2 hib).1
+        left; omega
+      | false =>
+        have hg2 : res.lay2.Gen k2 := by
+          rcases hp2 with hp | hp
+          · exact hp
+          · rw [hw2] at hp; exact nomatch hp
+        have := hsb hw2; subst this
+        exact hP2.disj k1 k2 a' b' hne has hbs hg1 hg2 ha hb
+  · rw [hsh]; exact (lst_cursor_facts res.pos3 (by rw [← hsh]; exact hnw4)).2
+  · rw [hsh]; exact (lst_cursor_facts res.pos3 (by rw [← hsh]; exact hnw4)).1
+
 end ElfioVerif
